@@ -268,10 +268,10 @@ def main(argv=None):
                 continue          # assumed at call sites; discharged by a table obligation
             tasks.append(("contract", i))
     for i, l in enumerate(api.LEMMAS):
-        if l.prop == prop and not (args.only and args.only not in l.name):
+        if l.prop == prop and not (args.only and not any(x in l.name for x in args.only.split("|"))):
             tasks.append(("lemma", i))
     for i, (name, p, fn) in enumerate(api.TABLES):
-        if p == prop and not (args.only and args.only not in name):
+        if p == prop and not (args.only and not any(x in name for x in args.only.split("|"))):
             tasks.append(("table", i))
     if not tasks:
         print("CHECKER-ERROR: no proof task registered for %s" % prop)
